@@ -83,7 +83,7 @@ func TestCheck(t *testing.T) {
 	defer r.Finish()
 	r.Rule("case = cluster of n in 3..6 real bcast.Components (1 or 2 ceremony sessions over the same keys) on fakenet, one member is the harness-played faulty member; " +
 		"honest members run real Broadcast calls concurrently (about 30% of 12 ids each) while the faulty member executes a PRNG playbook of /sig and /msg injections " +
-		"(sequential and concurrent equivocation, concurrent duplicates, withholding, signature-list permutation/truncation/duplication/substitution from other ids, payloads, members, requesters and sessions, " +
+		"(sequential and concurrent equivocation, equivocation across dropped and re-opened connections, connection flapping, concurrent duplicates, withholding, signature-list permutation/truncation/duplication/substitution from other ids, payloads, members, requesters and sessions, " +
 		"unknown ids, re-requests, relaying foreign signed messages, alternative encodings, payload pairs that would collide under weakened hashes); " +
 		"non-trivial = at least one honest broadcast reached every honest member AND the faulty member had at least one /msg accepted and one rejected; distinct = hash of the full adversary trace")
 	r.Assume("attribution is behavioural, no hash is re-implemented: member m signed payload P for (requester, id, session) iff m's real /sig handler answered a request carrying exactly P with a 65-byte signature; " +
@@ -113,6 +113,8 @@ func TestCheck(t *testing.T) {
 	r.Require("adv_concurrent_sigreq_races", min(800, 16000))
 	r.Require("adv_concurrent_duplicate_races", min(150, 3000))
 	r.Require("adv_collision_attempts", min(500, 10000))
+	r.Require("adv_connections_dropped", min(1500, 30000))
+	r.Require("adv_reconnect_equivocations", min(400, 8000))
 
 	lc := &logCounter{counts: map[string]int64{}}
 	log.InitJSONForT(t, lc)
